@@ -527,6 +527,11 @@ impl NodeRecordStore {
             return Ok(());
         }
 
+        // a new version of a record we already hold takes the place of the old one
+        if self.records.contains_key(incoming_record_key) {
+            return Ok(());
+        }
+
         if let Some((farthest_record, farthest_record_distance)) = self.farthest_record.clone() {
             // if the incoming record is farther than the farthest record, we can't store it
             if farthest_record_distance
